@@ -30,6 +30,7 @@ type c14Input struct {
 	Expect string // same | linkmap | bytes | map | error
 	Node   ipld.Node
 	Block  []byte // stored block bytes when the node was decoded from a block
+	Canon  []byte // what the dag-pb codec writes for Node (equals Block unless the block's links were not in canonical order)
 	Names  []string
 	Why    string
 }
@@ -52,6 +53,7 @@ func TestC14(t *testing.T) {
 			rr := c.Rand()
 			st := store.New()
 			// children that really exist, so that preload variants can load them
+			unsorted := rep%2 == 1
 			mkChildren := func(n int, asShardLinks bool, pad int) ([]pbLinkSpec, []string) {
 				var ls []pbLinkSpec
 				var names []string
@@ -71,6 +73,11 @@ func TestC14(t *testing.T) {
 				}
 				sort.Slice(ls, func(i, j int) bool { return *ls[i].Name < *ls[j].Name })
 				sort.Strings(names)
+				if !asShardLinks && n > 1 && unsorted {
+					// a block whose links are not in name order (decodable; only the encoder sorts)
+					ls[0], ls[n-1] = ls[n-1], ls[0]
+					c.Count("unsorted_link_lists", 1)
+				}
 				return ls, names
 			}
 			var inputs []c14Input
@@ -82,7 +89,12 @@ func TestC14(t *testing.T) {
 					return
 				}
 				st.PutBlock(1, cid.DagProtobuf, blk)
-				inputs = append(inputs, c14Input{Class: class, Expect: expect, Node: n, Block: blk, Names: names, Why: why})
+				var canon bytes.Buffer
+				if err := dagpb.Encode(n, &canon); err != nil {
+					c.Harness("cannot re-encode generated dag-pb block: %v", err)
+					return
+				}
+				inputs = append(inputs, c14Input{Class: class, Expect: expect, Node: n, Block: blk, Canon: canon.Bytes(), Names: names, Why: why})
 			}
 			// A. nodes that are not dag-pb
 			lnk := cidlink.Link{Cid: st.PutBlock(1, cid.Raw, []byte("x"))}
@@ -107,6 +119,37 @@ func TestC14(t *testing.T) {
 				rr.Read(g)
 				g[0] = 0x0f // wire type 7: undecodable
 				add("garbage-data/"+lc, "linkmap", g, true, ls, names, "undecodable Data")
+				// structurally malformed protobuf that also the reference decoder refuses: cut short
+				// (incl. a packed blocksizes run ending inside a varint) or with an over-long varint
+				for k := 0; k < 6; k++ {
+					var bad []byte
+					why := ""
+					switch k {
+					case 0:
+						bad, why = []byte{0x08, 0x02, 0x22, 0x02, 0x05, 0x80}, "packed blocksizes run ending inside a varint"
+					case 1:
+						bad, why = []byte{0x08, byte(1 + rr.Intn(5)), 0x22, 0x03, 0x01, 0xff, 0xff}, "packed blocksizes run ending inside a varint"
+					default:
+						m := msgFor(uint64(rr.Intn(6)), rr.Intn(128), rr.Intn(40))
+						enc := gen.Encode(rr, m, gen.Pres{Kind: "permuted", Packed: rr.Intn(2) == 0, Unknown: rr.Intn(3)})
+						if len(enc) < 2 {
+							continue
+						}
+						if k%2 == 0 {
+							bad, why = enc[:1+rr.Intn(len(enc)-1)], "message cut short"
+						} else {
+							p := rr.Intn(len(enc))
+							bad = append(append(append([]byte(nil), enc[:p]...), 0xff, 0xff, 0xff, 0xff, 0xff, 0xff, 0xff, 0xff, 0xff, 0x7f), enc[p:]...)
+							why = "over-long varint spliced in"
+						}
+					}
+					var probe pb.Data
+					if proto.Unmarshal(bad, &probe) == nil {
+						continue // still a well-formed message
+					}
+					c.Count("malformed_payloads", 1)
+					add(fmt.Sprintf("malformed-data-%d/%s", k, lc), "linkmap", bad, true, ls, names, why+fmt.Sprintf(" (%x)", bad))
+				}
 				add("empty-data/"+lc, "linkmap-or-typed", []byte{}, true, ls, names, "empty Data (no type field)")
 				for _, t := range []pb.Data_DataType{pb.Data_Symlink, pb.Data_Metadata} {
 					tt := t
@@ -381,8 +424,8 @@ func TestC14(t *testing.T) {
 					}
 					if e := dagpb.Encode(sub, &enc); e != nil {
 						c.Violation("C14|substrate-unencodable|"+v.name, "%s of %s: dagpb.Encode(Substrate()) failed: %v", v.name, in.Class, e)
-					} else if !bytes.Equal(enc.Bytes(), in.Block) {
-						c.Violation("C14|substrate-reencode-differs|"+v.name, "%s of %s: re-encoding the substrate gives %x, the original block is %x", v.name, in.Class, enc.Bytes(), in.Block)
+					} else if !bytes.Equal(enc.Bytes(), in.Canon) {
+						c.Violation("C14|substrate-reencode-differs|"+v.name, "%s of %s: re-encoding the substrate gives %x, re-encoding the node that was reified gives %x", v.name, in.Class, enc.Bytes(), in.Canon)
 					}
 				}
 			}
